@@ -404,7 +404,15 @@ func c04(ctx *core.Ctx) {
 			// an adapted net/http middleware that hands a derived request on (r.WithContext), in front of every route
 			c.Filter(restful.HttpMiddlewareHandlerToFilter(func(next http.Handler) http.Handler {
 				return http.HandlerFunc(func(w http.ResponseWriter, r *http.Request) {
-					next.ServeHTTP(w, r.WithContext(context.WithValue(r.Context(), c04Key{}, 1)))
+					r2 := r.WithContext(context.WithValue(r.Context(), c04Key{}, 1))
+					if ti%8 == 4 {
+						// a URL rewriting middleware (http.StripPrefix and the like): the rest of the chain sees another path;
+						// the parameters stay those of the request that was routed
+						u := *r.URL
+						u.Path, u.RawPath = "/rewritten/by/a/middleware", ""
+						r2.URL = &u
+					}
+					next.ServeHTTP(w, r2)
 				})
 			}))
 		}
